@@ -331,7 +331,19 @@ pub fn model_checksum_text(m: &BTreeMap<String, String>) -> Option<String> {
     Some(out)
 }
 
-pub fn expect(p: &Program, typed: bool) -> Expect {
+/// The builder's fields after all calls, before build().
+#[derive(Clone, Debug, PartialEq, Eq)]
+pub struct BuilderState {
+    pub ty: String,
+    pub ns: String,
+    pub name: String,
+    pub version: String,
+    pub subpath: String,
+    pub quals: BTreeMap<String, String>,
+}
+
+/// Last write wins per field; an invalid key / malformed typed checksum fails the call.
+pub fn state(p: &Program) -> Result<BuilderState, (usize, String)> {
     let mut ty = p.ty.clone();
     let mut ns = String::new();
     let mut name = p.name.clone();
@@ -350,7 +362,7 @@ pub fn expect(p: &Program, typed: bool) -> Expect {
             Op::Type(s) | Op::PartsType(s) => ty = s.clone(),
             Op::Qualifier(k, v) => {
                 if !is_valid_key(k) {
-                    return Expect::CallErr(i, "InvalidQualifier".into());
+                    return Err((i, "InvalidQualifier".into()));
                 }
                 quals.insert(k.to_ascii_lowercase(), v.clone());
             },
@@ -375,13 +387,21 @@ pub fn expect(p: &Program, typed: bool) -> Expect {
                 Some(t) => {
                     quals.insert("checksum".into(), t);
                 },
-                None => return Expect::CallErr(i, "InvalidQualifier".into()),
+                None => return Err((i, "InvalidQualifier".into())),
             },
             Op::Checksum(None) => {
                 quals.remove("checksum");
             },
         }
     }
+    Ok(BuilderState { ty, ns, name, version, subpath, quals })
+}
+
+pub fn expect(p: &Program, typed: bool) -> Expect {
+    let BuilderState { ty, ns, name, version, subpath, quals } = match state(p) {
+        Ok(s) => s,
+        Err((i, k)) => return Expect::CallErr(i, k),
+    };
     let wrap = |k: &str| if typed { format!("Parse({k})") } else { k.to_string() };
     let mut reasons: Vec<String> = Vec::new();
     let ty_lower = ty.to_ascii_lowercase();
